@@ -27,6 +27,9 @@ PY = '/venv/bin/python'
 SPECIAL = {'C06': 'special_c06.py', 'C07': 'special_multi.py', 'C08': 'special_multi.py', 'C15': 'special_builder.py',
            'C16': 'special_builder.py', 'C17': 'special_modes.py', 'C18': 'special_fsstore.py', 'C20': 'special_viewer.py'}
 FORBIDDEN = r'\b(Admitted|admit|Axiom|Axioms|Parameter|Parameters|Conjecture|Conjectures|Admit Obligations)\b|Unset Guard|bypass_check|type-in-type|impredicative-set|Unset Universe Checking|Unset Positivity'
+# properties with kind-E theorems: the model is additionally driven against the real engine along EVERY transition of the explored
+# state graph of every catalogue program (harness/exhaustive.py)
+E_PROPS = {'C01', 'C02', 'C03', 'C04', 'C05', 'C06', 'C07', 'C08', 'C09', 'C10', 'C11', 'C14', 'C17', 'C19'}
 ALLOWED_AXIOMS = set()     # the development targets "Closed under the global context" everywhere
 
 TRUSTED_BASE = [
@@ -182,6 +185,28 @@ def run_workers(prop, seed, tier, budget):
     return results, errors
 
 
+def run_exhaustive(seed, tier):
+    """all shards of harness/exhaustive.py; returns (stats, per_program, broken, errors)"""
+    n = 8
+    procs = []
+    for w in range(n):
+        env = dict(os.environ, PYTHONHASHSEED=str((seed * 17 + w) % 1000), PYTHONPATH=os.environ.get('VERIF_REPO', '/repo'),
+                   PYTHONDONTWRITEBYTECODE='1', VERIF_REPO=os.environ.get('VERIF_REPO', '/repo'))
+        procs.append(subprocess.Popen([PY, os.path.join(HERE, 'exhaustive.py'), str(seed), tier, str(w), str(n)],
+                                      stdout=subprocess.PIPE, stderr=subprocess.PIPE, text=True, env=env, cwd=HERE))
+    stats, per, broken, errors = collections.Counter(), {}, [], []
+    for p in procs:
+        try:
+            out, err = p.communicate(timeout=7200)
+            r = json.loads(out.strip().splitlines()[-1])
+            stats.update(r['stats'])
+            per.update(r['per_program'])
+            broken += r['k2_broken']
+        except Exception as e:  # noqa: BLE001
+            errors.append('exhaustive correspondence worker failed: %s' % e)
+    return stats, per, broken, errors
+
+
 def merge(results):
     agg = dict(stats=collections.Counter(), dist=collections.Counter(), violations=[], k2_broken=[], known_hits=collections.Counter(),
                samples=[], distinct_nontrivial=0, known=[], rule=None)
@@ -261,6 +286,13 @@ def main():
         results, worker_errors2 = run_workers(prop, seed, tier, budget)
         worker_errors += worker_errors2
         agg = merge(results)
+        if prop in E_PROPS:
+            xs, xper, xbroken, xerr = run_exhaustive(seed, tier)
+            worker_errors += xerr
+            agg['exhaustive'] = dict(stats=dict(xs), per_program=xper)
+            agg['k2_broken'] += [dict(b, diffs=['catalogue program, exhaustive correspondence: ' + d for d in b['diffs']]) for b in xbroken]
+            agg['stats']['k2_compared'] += xs.get('transitions', 0)
+            agg['stats']['k2_disagree'] += xs.get('disagree', 0)
     else:
         worker_errors.append('model driver missing')
 
@@ -318,6 +350,7 @@ def main():
                   input_distribution={k: v for k, v in sorted(agg['dist'].items())},
                   corpus=dict(fixed_defects_replayed=corpus.get('n_fixed', 0), known_findings_replayed=[k['id'] for k in corpus.get('known', [])]),
                   obligations_broken=obligations_broken,
+                  catalogue_correspondence=agg.get('exhaustive', {}),
                   exhaustive=False))
     if level == 'proof' and ev['coverage']['discharged'] < 1:
         ev['coverage']['discharged'] = 0
